@@ -582,6 +582,7 @@ pub struct ChannelClosed;
 impl<T> Receiver<T> {
     pub uninterp spec fn popped(&self) -> Seq<T>;
     pub uninterp spec fn drained(&self) -> bool;
+    pub uninterp spec fn closed(&self) -> bool;     // the producing thread is gone
 
     #[verifier::external_body]
     pub fn try_recv(&mut self) -> (r: Result<Option<T>, ChannelClosed>)
@@ -589,6 +590,8 @@ impl<T> Receiver<T> {
             r is Ok && r->Ok_0 is Some ==> final(self).popped() == old(self).popped().push(r->Ok_0->Some_0),
             !(r is Ok && r->Ok_0 is Some) ==> final(self).popped() == old(self).popped(),
             r is Err ==> final(self).drained(),
+            old(self).closed() && !(r is Ok && r->Ok_0 is Some) ==> r is Err,
+            old(self).closed() ==> final(self).closed(),
     { unimplemented!() }
 }
 
